@@ -110,7 +110,7 @@ pub fn run(ctx: &Ctx) -> i32 {
             ],
             exhaustive: false,
             extra,
-            min_nontrivial: 1000,
+            min_nontrivial: 100,
         },
     )
 }
